@@ -39,6 +39,27 @@ pub fn laws(ctx: &mut Ctx, which: Which, origin: &str, b: &[u8], from_compiler: 
             return;
         }
     };
+    // the loaded program IS the program the file denotes: structural equality with the repository's own
+    // in-memory representation built from the independent decoder's result (no detour through the writer)
+    if which == Which::C04 && !pipeline::construct_convention_holds() { ctx.note("construct oracle off: the loader's in-memory code layout is not pool order on the canary programs") }
+    if which == Which::C04 && pipeline::construct_convention_holds() {
+        if let Ok(d) = &decoded {
+            match pipeline::construct(d) {
+                Ok(c) => {
+                    ctx.count("loaded_vs_constructed", 1);
+                    if c != p {
+                        let (a, b2) = (format!("{:?}", p), format!("{:?}", c));
+                        let at = a.chars().zip(b2.chars()).position(|(x, y)| x != y).unwrap_or(a.len().min(b2.len()));
+                        let lo = at.saturating_sub(80);
+                        ctx.violation("layout/loaded-program-is-not-the-denoted-program", "the loader builds a different program than the file denotes",
+                            json!({"origin": origin, "case": describe(), "loaded_near_difference": a.chars().skip(lo).take(240).collect::<String>(),
+                                   "denoted_near_difference": b2.chars().skip(lo).take(240).collect::<String>(), "bytes": b.len(), "bytes_hex": codec::hex(&b[..b.len().min(600)])}));
+                    }
+                }
+                Err(_) => ctx.count("denoted_program_not_constructible", 1),
+            }
+        }
+    }
     match pipeline::serialize(&p) {
         Ok(b2) => {
             if b2 != b {
